@@ -1,3 +1,3 @@
--- This module serves as the root of the `Memterm` library.
--- Import modules here that should be built as part of the library.
-import Memterm.Basic
+import Memterm.Types
+import Memterm.Generated.Tables
+import Memterm.Screen
